@@ -224,7 +224,7 @@ Definition C11_crepr (sp : selpath) (m : mode) (w : N) (x : cvec) (B : list bool
   | CR v => RL.rl_copy_bit_vec m (ones B) (lenB B) = Ok v
   end.
 
-(* THE REMAINING PREMISE (the construction and iterator theorems of C02, not yet available): for the low width w
+(* The sparse premise (PROVED from C02 in Props/C11_sparse.v: C11_sparse_side_holds): for the low width w
    at hand the sparse vector of B can be built, and its len / count_ones / one_iter are those of B *)
 Definition C11_sparse_side (sp : selpath) (m : mode) (w : N) (B : list bool) : Prop :=
   exists sv, Sparse.sv_copy sp m w (lenB B) (ones B) = Ok sv /\ creads m (CS sv) (lenB B) (count B) (ones B).
@@ -275,10 +275,11 @@ Theorem C11_chain_concrete_into_sparse :
 Proof. exact ConvertChainC.cchain_into_sparse. Qed.
 Print Assumptions C11_chain_concrete_into_sparse.
 
-(* PARTIAL. The full statement: every chain over the concrete models, SparseVector sources included, for every
-   admissible low width whose high part fits a usize. What is missing is exactly [C11_sparse_side_statement]
+(* The full statement: every chain over the concrete models, SparseVector sources included, for every
+   admissible low width whose high part fits a usize. It needs exactly [C11_sparse_side_statement]
    (property C02: the sparse vector of B can be built and its one_iter yields ones B); C11_chain_concrete_partial
-   derives the full statement from it. *)
+   derives the full statement from it. BOTH ARE NOW PROVED in Props/C11_sparse.v (C11_sparse_side_holds,
+   C11_chain_concrete_full). *)
 Definition C11_sparse_side_statement : Prop :=
   forall (sp : selpath) (m : mode) (w : N) (B : list bool),
   lenB B < 2 ^ 64 -> 1 <= w <= 63 -> count B + (lenB B + 2 ^ w - 1) / 2 ^ w < 2 ^ 64 ->
